@@ -101,6 +101,22 @@ def families(rng):
         'comments-on-call-args': lambda n: nest(n, lambda v, i: H(c(v, 'arg %d' % i))),
         'comments-mixed': lambda n: nest(n, lambda v, i: [c({'k': c(v, 'v%d' % i)}, 'd%d' % i)]),
     }
+    def ring(n, comment_text):
+        ds = [{'i': i} for i in range(n)]
+        for i, d in enumerate(ds):
+            d['next'] = c(ds[(i + 1) % n], comment_text % i) if comment_text else ds[(i + 1) % n]
+        return ds[0]
+
+    def list_ring(n):
+        ls = [[i] for i in range(n)]
+        for i, l in enumerate(ls):
+            l.append(c(ls[(i + 1) % n], 'link %d' % i))
+        return ls[0]
+    # finite but cyclic values: "pformat terminates on every finite value"
+    F['cyclic-dict-ring'] = lambda n: ring(n, None)
+    F['cyclic-dict-ring-commented'] = lambda n: ring(n, 'c%d')
+    F['cyclic-dict-ring-long-comments'] = lambda n: ring(n, 'a rather long comment that will not fit at the end of the line, a rather long comment %d')
+    F['cyclic-list-ring-commented'] = lambda n: list_ring(n)
     # seeded random wrapper recipes
     wrappers = [lambda v, i: [v], lambda v, i: {'k': v}, lambda v, i: (v, i), lambda v, i: H(v),
                 lambda v, i: [c(v, 'c')], lambda v, i: {'k': c(v, 'c')}, lambda v, i: {'a': 1, 'b': v, 'c': 3},
@@ -144,7 +160,7 @@ def check_c12(chk, args):
         for name, fam in sorted(F.items()):
             prev = None
             for m in sizes:
-                if name.startswith(('nested', 'deep', 'comments', 'random')) and m > 48:
+                if name.startswith(('nested', 'deep', 'comments', 'random', 'cyclic')) and m > 48:
                     continue
                 budget = 30_000_000 if prev is None else max(16 * prev, 2_000_000)
                 try:
